@@ -184,6 +184,14 @@ func (r *Run) buildOverlay(native bool) (map[string][]byte, error) {
 		return nil, err
 	}
 	ov[filepath.Join(repo, "zz_verif/verif.go")] = b
+	common, _ := filepath.Glob(filepath.Join(verifDir, "harness/zz_verif/common/*.go"))
+	for _, cf := range common {
+		cb, err := os.ReadFile(cf)
+		if err != nil {
+			return nil, err
+		}
+		ov[filepath.Join(repo, "zz_verif", filepath.Base(cf))] = cb
+	}
 	for dst, src := range r.cfg.Overlays {
 		b, err := os.ReadFile(filepath.Join(verifDir, src))
 		if err != nil {
